@@ -233,8 +233,10 @@ pub fn j_numeric(pf: usize, x: f64, ts: TimeScale, out: &mut Local) {
         }
         Ok(Err(e)) => {
             let msg = e.to_string();
-            if msg.contains("nsupported") || format!("{e:?}").contains("UnsupportedTimeSystem") {
-                out.dc(1); // documented refusal
+            if (msg.contains("nsupported") || format!("{e:?}").contains("UnsupportedTimeSystem")) && (ts == TimeScale::ET || ts == TimeScale::TDB) {
+                out.dc(1); // the statement speaks of "the uniform time scales and UTC": a refusal for ET/TDB is not judged
+            } else if msg.contains("nsupported") || format!("{e:?}").contains("UnsupportedTimeSystem") {
+                out.viol("c10.numeric", format!("refused-in-a-uniform-scale,{},{}", PREFIX[pf], scale_name(ts)), args, format!("Ok for {text:?}"), format!("Err({msg})"));
             } else {
                 out.viol("c10.numeric", format!("rejected,{},{}", PREFIX[pf], scale_name(ts)), args, format!("Ok for {text:?}"), format!("Err({msg})"));
             }
